@@ -5,57 +5,86 @@ Bridge resolver → evaluator, part 6: the evaluator side of C06.
 
 On a state satisfying `MR` (C04's invariant), for code that is well scoped (`ws…`) and has the
 static guarantees (`ok…`, `Lemmas/BridgeOk.lean`), with every hoisted function having them too
-(`FInv`), NO evaluation of the current code (`cfg.panics = false`) ends in a panic: the fixed sites
-report a runtime error, and each of the nine residual sites is excluded —
+(`FInv`), an evaluation of the current code (`cfg.panics = false`) panics at most at the sites an
+`Allowed` set leaves open (`fun _ => False`: none): the fixed sites report a runtime error, and each
+of the nine residual sites is excluded —
   `fnById` / `fnByName`  a bound call finds its function (`findFn_lex_some`, from `Link`);
   `callArity`            the table gives callee and call the same parameter count;
   `paramRange`           `WSFn`: every parameter of a hoisted function carries its `LocalId`;
   `flowEscape`           `comot` / `next` do not leave a function body (`FlowAll`);
   `builtinArity`         a global builtin is called with one argument;
-  `numLit`               the number lexemes parse (assumption on the `NumOps` instance);
-  `assignIndexEmpty`     the target of an index assignment has an index;
-  `twMaximalSuffix`      `StrOps.find` / `replace` are total (C13, passed in as `StrTotal`).
+  `numLit`               the number lexemes parse (assumption on the `NumOps` instance) — or allowed;
+  `assignIndexEmpty`     the target of an index assignment has an index — or allowed;
+  `twMaximalSuffix`      `StrOps.find` / `replace` are total (C13, passed in as `StrTotal`) — or allowed.
+The induction (`SafeAll`, `safe_all`) runs next to C04's (`ag_all`), which supplies the preservation
+of `MR` and the frame; `FInv` follows from the frame (hoisted functions are part of the skeleton).
 -/
 namespace NaijaVerif.Bridge
 open NaijaVerif NaijaVerif.Eval
 
 variable {N : Type}
 
-/-! ### Results that are no panic -/
+/-! ### Results that panic at most at allowed sites -/
 
-/-- Not a panic. -/
-def Safe {α : Type} (r : Res N α) : Prop := ∀ site st, r ≠ .panic site st
+/-- The sites a result may still panic at (`fun _ => False`: none). -/
+abbrev Allowed := PanicSite → Prop
 
-theorem Safe.ok {α : Type} (a : α) (st : State N) : Safe (Res.ok a st) := by intro s st' h; cases h
-theorem Safe.err {α : Type} (k : RtKind) (sp : Span) (st : State N) : Safe (Res.err k sp st : Res N α) := by
+variable {A : Allowed}
+
+/-- A panic, if any, is at an allowed site. -/
+def Safe {α : Type} (A : Allowed) (r : Res N α) : Prop := ∀ site st, r = .panic site st → A site
+
+theorem Safe.ok {α : Type} (a : α) (st : State N) : Safe A (Res.ok a st) := by intro s st' h; cases h
+theorem Safe.err {α : Type} (k : RtKind) (sp : Span) (st : State N) : Safe A (Res.err k sp st : Res N α) := by
   intro s st' h; cases h
-theorem Safe.fuel {α : Type} : Safe (Res.fuel : Res N α) := by intro s st' h; cases h
+theorem Safe.fuel {α : Type} : Safe A (Res.fuel : Res N α) := by intro s st' h; cases h
 
-theorem Safe.bind {α β : Type} {r : Res N α} {k : α → State N → Res N β} (h : Safe r)
-    (hk : ∀ a st1, r = .ok a st1 → Safe (k a st1)) : Safe (r.bind k) := by
+theorem Safe.bind {α β : Type} {r : Res N α} {k : α → State N → Res N β} (h : Safe A r)
+    (hk : ∀ a st1, r = .ok a st1 → Safe A (k a st1)) : Safe A (r.bind k) := by
   cases r with
   | ok a st1 => exact hk a st1 rfl
   | err kd sp st => exact Safe.err _ _ _
-  | panic s st => exact absurd rfl (h s st)
+  | panic s st =>
+    intro s' st' e
+    simp only [Res.bind] at e
+    cases e
+    exact h s st rfl
   | fuel => exact Safe.fuel
 
 theorem safe_trap {α : Type} {cfg : RunCfg} (hp : cfg.panics = false) {site : PanicSite} (hs : site.fixed = true)
-    (sp : Span) (st : State N) : Safe (trap cfg site sp st : Res N α) := by
+    (sp : Span) (st : State N) : Safe A (trap cfg site sp st : Res N α) := by
   unfold trap; simp only [hp, hs, Bool.not_true, Bool.or_self, Bool.false_eq_true, if_false]
   exact Safe.err _ _ _
+
+theorem safe_trap_allowed {α : Type} {cfg : RunCfg} {site : PanicSite} (ha : A site)
+    (sp : Span) (st : State N) : Safe A (trap cfg site sp st : Res N α) := by
+  unfold trap
+  split
+  · intro s st' e; cases e; exact ha
+  · exact Safe.err _ _ _
 
 /-- A pure step panics at fixed sites only. -/
 def PureOK {α : Type} (x : Except Fault α) : Prop := ∀ s, x = .error (.panic s) → s.fixed = true
 
+/-- A pure step panics at fixed or allowed sites only. -/
+def PureOKA {α : Type} (A : Allowed) (x : Except Fault α) : Prop :=
+  ∀ s, x = .error (.panic s) → s.fixed = true ∨ A s
+
+theorem PureOK.weaken {α : Type} {x : Except Fault α} (h : PureOK x) : PureOKA A x :=
+  fun s e => Or.inl (h s e)
+
 theorem safe_ofFault {α : Type} {cfg : RunCfg} (hp : cfg.panics = false) {flt : Fault}
-    (h : ∀ s, flt = .panic s → s.fixed = true) (sp : Span) (st : State N) :
-    Safe (Res.ofFault cfg flt sp st : Res N α) := by
+    (h : ∀ s, flt = .panic s → s.fixed = true ∨ A s) (sp : Span) (st : State N) :
+    Safe A (Res.ofFault cfg flt sp st : Res N α) := by
   cases flt with
   | rt k s => exact Safe.err _ _ _
-  | panic s => exact safe_trap hp (h s rfl) _ _
+  | panic s =>
+    rcases h s rfl with hf | ha
+    · exact safe_trap hp hf _ _
+    · exact safe_trap_allowed ha _ _
 
-theorem safe_ofExcept {α : Type} {cfg : RunCfg} (hp : cfg.panics = false) {x : Except Fault α} (h : PureOK x)
-    (sp : Span) (st : State N) : Safe (Res.ofExcept cfg x sp st) := by
+theorem safe_ofExcept {α : Type} {cfg : RunCfg} (hp : cfg.panics = false) {x : Except Fault α} (h : PureOKA A x)
+    (sp : Span) (st : State N) : Safe A (Res.ofExcept cfg x sp st) := by
   cases x with
   | ok a => exact Safe.ok _ _
   | error flt => exact safe_ofFault hp (fun s e => h s (by rw [e])) _ _
@@ -114,31 +143,37 @@ theorem timeoutMs_pure (v : Value N) (sp : Span) : PureOK (timeoutMs v sp) := by
 theorem apply_pure (op : MutOp N) (cell : Value N) (sp : Span) : PureOK (op.apply cell sp) := by
   intro s h; unfold MutOp.apply at h; pure_tac h
 
-theorem strMethod_pure (hst : StrTotal) (std : StdOps) (m : StrM) (b : Bytes) (args : List (Value N)) :
-    PureOK (strMethod std m b args) := by
+theorem strMethod_pure (hst : A .twMaximalSuffix ∨ StrTotal) (std : StdOps) (m : StrM) (b : Bytes)
+    (args : List (Value N)) : PureOKA A (strMethod std m b args) := by
   intro s h
   cases m with
   | find =>
     simp only [strMethod] at h
     split at h
     · next n =>
-      have := hst.1 b n
       split at h
-      · next hn => rw [hn] at this; cases this
+      · next hn =>
+        cases h
+        rcases hst with ha | hst
+        · exact Or.inr ha
+        · have := hst.1 b n; rw [hn] at this; cases this
       · cases h
       · cases h
-    · cases h; rfl
+    · cases h; exact Or.inl rfl
   | replace =>
     simp only [strMethod] at h
     split at h
     · next o n =>
-      have := hst.2 b o n
       split at h
-      · next hn => rw [hn] at this; cases this
+      · next hn =>
+        cases h
+        rcases hst with ha | hst
+        · exact Or.inr ha
+        · have := hst.2 b o n; rw [hn] at this; cases this
       · cases h
-    · cases h; rfl
-  | slice => simp only [strMethod] at h; pure_tac h
-  | split => simp only [strMethod] at h; pure_tac h
+    · cases h; exact Or.inl rfl
+  | slice => simp only [strMethod] at h; refine Or.inl ?_; pure_tac h
+  | split => simp only [strMethod] at h; refine Or.inl ?_; pure_tac h
   | len => simp only [strMethod] at h; cases h
   | upper => simp only [strMethod] at h; cases h
   | lower => simp only [strMethod] at h; cases h
@@ -153,13 +188,17 @@ theorem walkMut_pure : ∀ (v : Value N) (path : List (Nat × Span)), PureOK (wa
   | case3 xs i sp p hx => intro s h; cases h
   | case4 v sp p _ => intro s h; cases h
 
-theorem walkAssign_pure (ssp : Span) : ∀ (v : Value N) (path : List (Nat × Span)), path ≠ [] →
-    PureOK (walkAssign ssp v path) := by
+theorem walkAssign_pure (ssp : Span) : ∀ (v : Value N) (path : List (Nat × Span)),
+    path ≠ [] ∨ A .assignIndexEmpty → PureOKA A (walkAssign ssp v path) := by
   intro v path
   fun_induction walkAssign ssp v path <;> intro hne s h
-  all_goals (try (first | (cases h; done) | exact absurd rfl hne))
-  rename_i ih
-  exact ih (by simp) s h
+  all_goals (try (first | (cases h; done)))
+  · cases h
+    rcases hne with hne | ha
+    · exact absurd rfl hne
+    · exact Or.inr ha
+  · rename_i ih
+    exact ih (Or.inl (by simp)) s h
 
 end
 
@@ -224,7 +263,7 @@ theorem okStmts_tail {C : SCfg} {d : Bool} {s : Stmt} {rest : List Stmt} (h : ok
     okStmt C d s = true ∧ okStmts C d rest = true := by
   simpa [okStmts] using h
 
-theorem FInv.hoist {C : SCfg} (cfg : RunCfg) {d : Bool} : ∀ (ss : List Stmt) (st : State N),
+theorem FInv.hoist {C : SCfg} (cfg : RunCfg) (hpl : C.plan = cfg.plan) {d : Bool} : ∀ (ss : List Stmt) (st : State N),
     okStmts C d ss = true → FInv C st.env → FInv C (hoist cfg ss st).env := by
   intro ss
   induction ss with
@@ -237,7 +276,8 @@ theorem FInv.hoist {C : SCfg} (cfg : RunCfg) {d : Bool} : ∀ (ss : List Stmt) (
       simp only [Eval.hoist]
       split
       · exact ih st hrest h
-      · split
+      · next hnp =>
+        split
         · exact ih st hrest h
         · next S r heq =>
           apply ih _ hrest
@@ -247,8 +287,11 @@ theorem FInv.hoist {C : SCfg} (cfg : RunCfg) {d : Bool} : ∀ (ss : List Stmt) (
           rcases List.mem_cons.1 hS' with rfl | hS'
           · simp only at hfd
             rcases List.mem_cons.1 hfd with rfl | hfd
-            · simp only [okStmt, Bool.and_eq_true] at hs
-              exact ⟨hs.1, hs.2⟩
+            · simp only [okStmt, Bool.and_eq_true, Bool.or_eq_true] at hs
+              refine ⟨hs.1, ?_⟩
+              rcases hs.2 with hq | hq
+              · rw [hpl] at hq; exact absurd hq hnp
+              · exact hq
             · exact h S List.mem_cons_self fd hfd
           · exact h S' (List.mem_cons_of_mem _ hS') fd hfd
     | assign => simp only [Eval.hoist]; exact ih st hrest h
@@ -447,7 +490,7 @@ end
 /-! ### The helpers -/
 
 theorem safe_runCommand (cfg : RunCfg) (c : Proc.Cmd) (sp : Span) (st : State N) :
-    Safe (runCommand cfg c sp st) := by
+    Safe A (runCommand cfg c sp st) := by
   unfold runCommand
   split
   · exact Safe.err _ _ _
@@ -458,7 +501,7 @@ theorem safe_runCommand (cfg : RunCfg) (c : Proc.Cmd) (sp : Span) (st : State N)
       · exact Safe.ok _ _
 
 theorem safe_globalCall [NumOps N] {cfg : RunCfg} (hp : cfg.panics = false) (b : Eval.GlobalB) (v : Value N) (sp : Span)
-    (st : State N) : Safe (globalCall cfg b v sp st) := by
+    (st : State N) : Safe A (globalCall cfg b v sp st) := by
   unfold globalCall
   split
   · exact Safe.ok _ _
@@ -471,22 +514,23 @@ theorem safe_globalCall [NumOps N] {cfg : RunCfg} (hp : cfg.panics = false) (b :
 
 theorem safe_applyMut [NumOps N] {cfg : RunCfg} (hp : cfg.panics = false) (st : State N) (name : Bytes)
     (bind : Option Nat) (path : List (Nat × Span)) (op : MutOp N) (sp : Span) :
-    Safe (applyMut cfg st name bind path op sp) := by
+    Safe A (applyMut cfg st name bind path op sp) := by
   unfold applyMut
   split
-  · apply safe_trap hp
+  · show Safe A (trap cfg _ sp st)
+    refine safe_trap hp ?_ _ _
     cases op <;> simp only <;> split <;> rfl
   · split
     · exact safe_trap hp rfl _ _
     · split
-      · next flt hflt => exact safe_ofFault hp (fun s e => walkMut_pure _ _ s (by rw [hflt, e])) _ _
+      · next flt hflt => exact safe_ofFault hp (fun s e => Or.inl (walkMut_pure _ _ s (by rw [hflt, e]))) _ _
       · split
-        · next flt hflt => exact safe_ofFault hp (fun s e => apply_pure _ _ _ s (by rw [hflt, e])) _ _
+        · next flt hflt => exact safe_ofFault hp (fun s e => Or.inl (apply_pure _ _ _ s (by rw [hflt, e]))) _ _
         · exact Safe.ok _ _
 
 theorem safe_assignIndex [NumOps N] {cfg : RunCfg} (hp : cfg.panics = false) (st : State N) (name : Bytes)
-    (bind : Option Nat) {path : List (Nat × Span)} (hne : path ≠ []) (v : Value N) (sp : Span) :
-    Safe (assignIndex cfg st name bind path v sp) := by
+    (bind : Option Nat) {path : List (Nat × Span)} (hne : path ≠ [] ∨ A .assignIndexEmpty) (v : Value N) (sp : Span) :
+    Safe A (assignIndex cfg st name bind path v sp) := by
   unfold assignIndex
   split
   · exact safe_trap hp rfl _ _
@@ -597,60 +641,62 @@ theorem lvOf_ok {C : SCfg} {e : Expr} (he : okExpr C e = true) {name : Bytes} {b
 /-! ### The walk -/
 
 /-- Safe, and a successful result re-establishes the invariants. -/
-def Good (C : SCfg) (cfg : RunCfg) (Γ : List Binder) (st0 : State N) {α : Type} (r : Res N α) : Prop :=
-  Safe r ∧ ∀ a st', r = .ok a st' → MR cfg Γ st' ∧ Frame st0 st' ∧ FInv C st'.env
+def Good (A : Allowed) (C : SCfg) (cfg : RunCfg) (Γ : List Binder) (st0 : State N) {α : Type} (r : Res N α) : Prop :=
+  Safe A r ∧ ∀ a st', r = .ok a st' → MR cfg Γ st' ∧ Frame st0 st' ∧ FInv C st'.env
 
 theorem good_of {C : SCfg} {cfg : RunCfg} {Γ : List Binder} {st0 : State N} {α : Type} {r r' : Res N α}
-    (hs : Safe r) (hag : Ag cfg Γ st0 r r') (hF : FInv C st0.env) : Good C cfg Γ st0 r := by
+    (hs : Safe A r) (hag : Ag cfg Γ st0 r r') (hF : FInv C st0.env) : Good A C cfg Γ st0 r := by
   refine ⟨hs, fun a st' e => ?_⟩
   obtain ⟨hm, hf⟩ := hag.2 a st' (hag.1 ▸ e)
   exact ⟨hm, hf, hF.of_frame hf⟩
 
 theorem good_ofExcept {C : SCfg} {cfg cfg' : RunCfg} (hp : cfg'.panics = false) {Γ : List Binder} {st : State N}
-    {α : Type} {x : Except Fault α} (hx : PureOK x) (hm : MR cfg Γ st) (hF : FInv C st.env) (sp : Span) :
-    Good C cfg Γ st (Res.ofExcept cfg' x sp st) := by
+    {α : Type} {x : Except Fault α} (hx : PureOKA A x) (hm : MR cfg Γ st) (hF : FInv C st.env) (sp : Span) :
+    Good A C cfg Γ st (Res.ofExcept cfg' x sp st) := by
   refine ⟨safe_ofExcept hp hx _ _, fun a st' e => ?_⟩
   obtain ⟨_, e2⟩ := Res.ofExcept_eq_ok e
   subst e2
   exact ⟨hm, Frame.refl _, hF⟩
 
 theorem Safe.bindG {C : SCfg} {cfg : RunCfg} {Γ1 : List Binder} {s1 : State N} {α β : Type} {r : Res N α}
-    {k : α → State N → Res N β} (h : Good C cfg Γ1 s1 r)
-    (hk : ∀ a st1, MR cfg Γ1 st1 → Frame s1 st1 → FInv C st1.env → Safe (k a st1)) : Safe (r.bind k) :=
+    {k : α → State N → Res N β} (h : Good A C cfg Γ1 s1 r)
+    (hk : ∀ a st1, MR cfg Γ1 st1 → Frame s1 st1 → FInv C st1.env → Safe A (k a st1)) : Safe A (r.bind k) :=
   Safe.bind h.1 (fun a st1 e => by obtain ⟨a1, a2, a3⟩ := h.2 a st1 e; exact hk a st1 a1 a2 a3)
 
 /-- What is assumed of the configuration and of the number type. -/
-structure Hyp (N : Type) [NumOps N] (C : SCfg) (cfg : RunCfg) : Prop where
+structure Hyp (N : Type) [NumOps N] (A : Allowed) (C : SCfg) (cfg : RunCfg) : Prop where
   /-- the current code: fixed sites report a runtime error -/
   panics : cfg.panics = false
-  /-- the plan removes no function (it may remove statements) -/
-  keep : ∀ i, Plan.prunesFn cfg.plan (some i) = false
-  /-- `NumOps.ofLit` accepts every lexeme `numOk` accepts -/
-  num : ∀ lex, C.numOk lex = true → (NumOps.ofLit (N := N) lex).isSome = true
-  /-- C13 -/
-  str : StrTotal
+  /-- the static guarantees were established for the plan the program is run with -/
+  plan : C.plan = cfg.plan
+  /-- `NumOps.ofLit` accepts every lexeme `numOk` accepts (unless `numLit` is allowed) -/
+  num : A .numLit ∨ ∀ lex, C.numOk lex = true → (NumOps.ofLit (N := N) lex).isSome = true
+  /-- C13 (unless `twMaximalSuffix` is allowed) -/
+  str : A .twMaximalSuffix ∨ StrTotal
+  /-- index assignments have an index (unless `assignIndexEmpty` is allowed) -/
+  idx : A .assignIndexEmpty ∨ C.strictIdx = true
 
 section
 variable [NumOps N]
 
-structure SafeAll (C : SCfg) (cfg : RunCfg) (f : Nat) : Prop where
+structure SafeAll (A : Allowed) (C : SCfg) (cfg : RunCfg) (f : Nat) : Prop where
   expr : ∀ (Γ : List Binder) (e : Expr) (st : State N), MR cfg Γ st → wsExpr Γ e = true → okExpr C e = true →
-    FInv C st.env → Good C cfg Γ st (evalExpr cfg.dyn f e st)
+    FInv C st.env → Good A C cfg Γ st (evalExpr cfg.dyn f e st)
   sel : ∀ (Γ : List Binder) es (st : State N), MR cfg Γ st → WsSel Γ es → OkSel C es →
-    FInv C st.env → Good C cfg Γ st (evalSel cfg.dyn f es st)
+    FInv C st.env → Good A C cfg Γ st (evalSel cfg.dyn f es st)
   idxs : ∀ (Γ : List Binder) (is : List (Expr × Span)) (st : State N), MR cfg Γ st →
     (∀ q ∈ is, wsExpr Γ q.1 = true) → (∀ q ∈ is, okExpr C q.1 = true) →
-    FInv C st.env → Good C cfg Γ st (evalIdxs cfg.dyn f is st)
+    FInv C st.env → Good A C cfg Γ st (evalIdxs cfg.dyn f is st)
   mutOp : ∀ (Γ : List Binder) m args sp (st : State N), MR cfg Γ st → wsExprs Γ args = true →
-    okExprs C args = true → FInv C st.env → Good C cfg Γ st (evalMutOp cfg.dyn f m args sp st)
+    okExprs C args = true → FInv C st.env → Good A C cfg Γ st (evalMutOp cfg.dyn f m args sp st)
   stmt : ∀ (Γ : List Binder) (d : Bool) s (st : State N), MR cfg Γ st → wsStmt Γ s = true →
-    okStmt C d s = true → FInv C st.env → Good C cfg Γ st (execStmt cfg.dyn f s st)
+    okStmt C d s = true → FInv C st.env → Good A C cfg Γ st (execStmt cfg.dyn f s st)
   stmts : ∀ (Γ : List Binder) (d : Bool) ss (st : State N), MR cfg Γ st → wsStmts Γ ss = true →
-    okStmts C d ss = true → FInv C st.env → Good C cfg Γ st (execStmts cfg.dyn f ss st)
+    okStmts C d ss = true → FInv C st.env → Good A C cfg Γ st (execStmts cfg.dyn f ss st)
   block : ∀ (Γ : List Binder) (d : Bool) b (st : State N), MR cfg Γ st → wsBlock Γ b = true →
-    okBlock C d b = true → FInv C st.env → Good C cfg Γ st (execBlock cfg.dyn f b st)
+    okBlock C d b = true → FInv C st.env → Good A C cfg Γ st (execBlock cfg.dyn f b st)
   loop : ∀ (Γ : List Binder) c b sp (st : State N), MR cfg Γ st → wsExpr Γ c = true → wsBlock Γ b = true →
-    okExpr C c = true → okBlock C true b = true → FInv C st.env → Good C cfg Γ st (loopW cfg.dyn f c b sp st)
+    okExpr C c = true → okBlock C true b = true → FInv C st.env → Good A C cfg Γ st (loopW cfg.dyn f c b sp st)
 
 /-- Side goals of the walk. -/
 macro "side" : tactic => `(tactic| (
@@ -672,20 +718,20 @@ macro "safe_close" h:ident hp:ident hst:ident : tactic => `(tactic| (
     | exact Safe.ok _ _
     | exact safe_trap $hp rfl _ _
     | exact safe_trap $hp (by split <;> rfl) _ _
-    | exact safe_ofExcept $hp (arith_pure _ _ _ _) _ _
-    | exact safe_ofExcept $hp (unary_pure _ _) _ _
-    | exact safe_ofExcept $hp (logicRhs_pure rfl _) _ _
-    | exact safe_ofExcept $hp (indexRead_pure _ _ _) _ _
+    | exact safe_ofExcept $hp (PureOK.weaken (arith_pure _ _ _ _)) _ _
+    | exact safe_ofExcept $hp (PureOK.weaken (unary_pure _ _)) _ _
+    | exact safe_ofExcept $hp (PureOK.weaken (logicRhs_pure rfl _)) _ _
+    | exact safe_ofExcept $hp (PureOK.weaken (indexRead_pure _ _ _)) _ _
     | exact safe_ofExcept $hp (strMethod_pure $hst _ _ _ _) _ _
     | exact safe_runCommand _ _ _ _
     | exact safe_globalCall $hp _ _ _ _
     | exact (SafeAll.stmts $h _ _ _ _ (by side) (by side) (by side) (by side)).1
     | exact (SafeAll.block $h _ _ _ _ (by side) (by side) (by side) (by side)).1
     | exact (SafeAll.loop $h _ _ _ _ _ (by side) (by side) (by side) (by side) (by side) (by side)).1
-    | refine Safe.bindG (good_ofExcept $hp (truthy_pure rfl _) (by side) (by side) _) ?_
-    | refine Safe.bindG (good_ofExcept $hp (indexValue_pure _ _) (by side) (by side) _) ?_
-    | refine Safe.bindG (good_ofExcept $hp (requiredString_pure _ _) (by side) (by side) _) ?_
-    | refine Safe.bindG (good_ofExcept $hp (timeoutMs_pure _ _) (by side) (by side) _) ?_
+    | refine Safe.bindG (good_ofExcept $hp (PureOK.weaken (truthy_pure rfl _)) (by side) (by side) _) ?_
+    | refine Safe.bindG (good_ofExcept $hp (PureOK.weaken (indexValue_pure _ _)) (by side) (by side) _) ?_
+    | refine Safe.bindG (good_ofExcept $hp (PureOK.weaken (requiredString_pure _ _)) (by side) (by side) _) ?_
+    | refine Safe.bindG (good_ofExcept $hp (PureOK.weaken (timeoutMs_pure _ _)) (by side) (by side) _) ?_
     | refine Safe.bindG (SafeAll.expr $h _ _ _ (by side) (by side) (by side) (by side)) ?_
     | refine Safe.bindG (SafeAll.sel $h _ _ _ (by side) (by side) (by side) (by side)) ?_
     | refine Safe.bindG (SafeAll.idxs $h _ _ _ (by side) (by side) (by side) (by side)) ?_
@@ -697,7 +743,7 @@ macro "safe_close" h:ident hp:ident hst:ident : tactic => `(tactic| (
     | (intro _ _ _ _ _)
     | split)))
 
-theorem safe_zero (C : SCfg) (cfg : RunCfg) : SafeAll (N := N) C cfg 0 := by
+theorem safe_zero (A : Allowed) (C : SCfg) (cfg : RunCfg) : SafeAll (N := N) A C cfg 0 := by
   refine ⟨?_, ?_, ?_, ?_, ?_, ?_, ?_, ?_⟩
   · intro Γ e st hm hws _ hF
     exact good_of (by simp only [evalExpr]; exact Safe.fuel) ((ag_zero cfg).expr Γ e st hm hws) hF
@@ -721,11 +767,11 @@ end
 /-! ### The induction step, one theorem per evaluator function -/
 
 section
-variable [NumOps N] {C : SCfg} {cfg : RunCfg} {f : Nat}
+variable [NumOps N] {A : Allowed} {C : SCfg} {cfg : RunCfg} {f : Nat}
 
-theorem safe_sel_step (H : Hyp N C cfg) (h : SafeAll (N := N) C cfg f) (Γ : List Binder)
+theorem safe_sel_step (H : Hyp N A C cfg) (h : SafeAll (N := N) A C cfg f) (Γ : List Binder)
     (es : List (Except (PanicSite × Span) Expr)) (st : State N) (hm : MR cfg Γ st) (hws : WsSel Γ es)
-    (hok : OkSel C es) (hF : FInv C st.env) : Good C cfg Γ st (evalSel cfg.dyn (f + 1) es st) := by
+    (hok : OkSel C es) (hF : FInv C st.env) : Good A C cfg Γ st (evalSel cfg.dyn (f + 1) es st) := by
   refine good_of ?_ (ag_sel_step (ag_all cfg f) Γ es st hm hws) hF
   have hp := H.panics
   have hst := H.str
@@ -736,10 +782,10 @@ theorem safe_sel_step (H : Hyp N C cfg) (h : SafeAll (N := N) C cfg f) (Γ : Lis
     | error s => simp only [evalSel]; exact safe_trap hp hok.headErr _ _
     | ok e => simp only [evalSel]; safe_close h hp hst
 
-theorem safe_idxs_step (H : Hyp N C cfg) (h : SafeAll (N := N) C cfg f) (Γ : List Binder)
+theorem safe_idxs_step (H : Hyp N A C cfg) (h : SafeAll (N := N) A C cfg f) (Γ : List Binder)
     (is : List (Expr × Span)) (st : State N) (hm : MR cfg Γ st) (hws : ∀ q ∈ is, wsExpr Γ q.1 = true)
     (hok : ∀ q ∈ is, okExpr C q.1 = true) (hF : FInv C st.env) :
-    Good C cfg Γ st (evalIdxs cfg.dyn (f + 1) is st) := by
+    Good A C cfg Γ st (evalIdxs cfg.dyn (f + 1) is st) := by
   refine good_of ?_ (ag_idxs_step (ag_all cfg f) Γ is st hm hws) hF
   have hp := H.panics
   have hst := H.str
@@ -753,10 +799,10 @@ theorem safe_idxs_step (H : Hyp N C cfg) (h : SafeAll (N := N) C cfg f) (Γ : Li
     have h4 : ∀ q ∈ rest, okExpr C q.1 = true := fun q hq => hok q (List.mem_cons_of_mem _ hq)
     simp only [evalIdxs]; safe_close h hp hst
 
-theorem safe_mutOp_step (H : Hyp N C cfg) (h : SafeAll (N := N) C cfg f) (Γ : List Binder)
+theorem safe_mutOp_step (H : Hyp N A C cfg) (h : SafeAll (N := N) A C cfg f) (Γ : List Binder)
     (m : MutM) (args : List Expr) (sp : Span) (st : State N) (hm : MR cfg Γ st) (hws : wsExprs Γ args = true)
     (hok : okExprs C args = true) (hF : FInv C st.env) :
-    Good C cfg Γ st (evalMutOp cfg.dyn (f + 1) m args sp st) := by
+    Good A C cfg Γ st (evalMutOp cfg.dyn (f + 1) m args sp st) := by
   refine good_of ?_ (ag_mutOp_step (ag_all cfg f) Γ m args sp st hm hws) hF
   have hp := H.panics
   have hst := H.str
@@ -764,10 +810,10 @@ theorem safe_mutOp_step (H : Hyp N C cfg) (h : SafeAll (N := N) C cfg f) (Γ : L
   | cmd c => cases c <;> simp only [evalMutOp] <;> safe_close h hp hst
   | _ => simp only [evalMutOp] <;> safe_close h hp hst
 
-theorem safe_stmts_step (H : Hyp N C cfg) (h : SafeAll (N := N) C cfg f) (Γ : List Binder) (d : Bool)
+theorem safe_stmts_step (H : Hyp N A C cfg) (h : SafeAll (N := N) A C cfg f) (Γ : List Binder) (d : Bool)
     (ss : List Stmt) (st : State N) (hm : MR cfg Γ st) (hws : wsStmts Γ ss = true)
     (hok : okStmts C d ss = true) (hF : FInv C st.env) :
-    Good C cfg Γ st (execStmts cfg.dyn (f + 1) ss st) := by
+    Good A C cfg Γ st (execStmts cfg.dyn (f + 1) ss st) := by
   refine good_of ?_ (ag_stmts_step (ag_all cfg f) Γ ss st hm hws) hF
   have hp := H.panics
   have hst := H.str
@@ -781,18 +827,18 @@ theorem safe_stmts_step (H : Hyp N C cfg) (h : SafeAll (N := N) C cfg f) (Γ : L
     · simp only [execStmts, dyn_plan, hpr, ↓reduceIte]; safe_close h hp hst
     · simp only [execStmts, dyn_plan, hpr]; safe_close h hp hst
 
-theorem safe_loop_step (H : Hyp N C cfg) (h : SafeAll (N := N) C cfg f) (Γ : List Binder)
+theorem safe_loop_step (H : Hyp N A C cfg) (h : SafeAll (N := N) A C cfg f) (Γ : List Binder)
     (c : Expr) (b : Block) (sp : Span) (st : State N) (hm : MR cfg Γ st) (hc : wsExpr Γ c = true)
     (hb : wsBlock Γ b = true) (hoc : okExpr C c = true) (hob : okBlock C true b = true) (hF : FInv C st.env) :
-    Good C cfg Γ st (loopW cfg.dyn (f + 1) c b sp st) := by
+    Good A C cfg Γ st (loopW cfg.dyn (f + 1) c b sp st) := by
   refine good_of ?_ (ag_loop_step (ag_all cfg f) Γ c b sp st hm hc hb) hF
   have hp := H.panics
   have hst := H.str
   simp only [loopW]; safe_close h hp hst
 
-theorem safe_block_step (H : Hyp N C cfg) (h : SafeAll (N := N) C cfg f) (Γ : List Binder) (d : Bool)
+theorem safe_block_step (_H : Hyp N A C cfg) (h : SafeAll (N := N) A C cfg f) (Γ : List Binder) (d : Bool)
     (b : Block) (st : State N) (hm : MR cfg Γ st) (hws : wsBlock Γ b = true) (hok : okBlock C d b = true)
-    (hF : FInv C st.env) : Good C cfg Γ st (execBlock cfg.dyn (f + 1) b st) := by
+    (hF : FInv C st.env) : Good A C cfg Γ st (execBlock cfg.dyn (f + 1) b st) := by
   refine good_of ?_ (ag_block_step (ag_all cfg f) Γ b st hm hws) hF
   cases b with
   | mk ss sp =>
@@ -801,16 +847,16 @@ theorem safe_block_step (H : Hyp N C cfg) (h : SafeAll (N := N) C cfg f) (Γ : L
     simp only [okBlock] at hok
     simp only [execBlock, Block.stmts, Block.span]
     rw [hoist_cfg cfg cfg.dyn rfl]
-    have hFI := FInv.hoist cfg ss _ hok (hF.push (.block sp) st.chain [] (declIds ss))
+    have hFI := FInv.hoist cfg _H.plan ss _ hok (hF.push (.block sp) st.chain [] (declIds ss))
     obtain ⟨T, e, hmT⟩ := hm.enterBlock (.block sp) ss hfr hss
     rw [e] at hFI ⊢
     refine Safe.bindG (h.stmts _ d ss _ hmT hss hok hFI) ?_
     intro flow st2 _ _ _
     exact Safe.ok _ _
 
-theorem safe_stmt_step (H : Hyp N C cfg) (h : SafeAll (N := N) C cfg f) (Γ : List Binder) (d : Bool)
+theorem safe_stmt_step (H : Hyp N A C cfg) (h : SafeAll (N := N) A C cfg f) (Γ : List Binder) (d : Bool)
     (s : Stmt) (st : State N) (hm : MR cfg Γ st) (hws : wsStmt Γ s = true) (hok : okStmt C d s = true)
-    (hF : FInv C st.env) : Good C cfg Γ st (execStmt cfg.dyn (f + 1) s st) := by
+    (hF : FInv C st.env) : Good A C cfg Γ st (execStmt cfg.dyn (f + 1) s st) := by
   refine good_of ?_ (ag_stmt_step (ag_all cfg f) Γ s st hm hws) hF
   have hp := H.panics
   have hst := H.str
@@ -843,10 +889,14 @@ theorem safe_stmt_step (H : Hyp N C cfg) (h : SafeAll (N := N) C cfg f) (Γ : Li
       refine Safe.bind (h.idxs _ _ _ hm1 hidxws hidxok hFI1).1 ?_
       intro path st2 e2
       have hlen := evalIdxs_length _ _ _ _ _ _ e2
-      have hpne : path ≠ [] := by
-        intro hnil
-        rw [hnil] at hlen
-        exact hne hidx (List.length_eq_zero_iff.1 hlen.symm)
+      have hpne : path ≠ [] ∨ A .assignIndexEmpty := by
+        rcases H.idx with ha | hs
+        · exact Or.inr ha
+        · left
+          intro hnil
+          rw [hnil] at hlen
+          have hidx' : isIndexExpr target = true := by simpa [hs] using hidx
+          exact hne hidx' (List.length_eq_zero_iff.1 hlen.symm)
       refine Safe.bind (safe_assignIndex (cfg := cfg.dyn) hp st2 name bind hpne v sp) ?_
       intro _ st3 _
       exact Safe.ok _ _
@@ -886,20 +936,22 @@ theorem safe_stmt_step (H : Hyp N C cfg) (h : SafeAll (N := N) C cfg f) (Γ : Li
     simp only [okStmt] at hok
     simp only [execStmt]; safe_close h hp hst
 
-theorem safe_expr_step (H : Hyp N C cfg) (h : SafeAll (N := N) C cfg f) (Γ : List Binder)
+theorem safe_expr_step (H : Hyp N A C cfg) (h : SafeAll (N := N) A C cfg f) (Γ : List Binder)
     (e : Expr) (st : State N) (hm : MR cfg Γ st) (hws : wsExpr Γ e = true) (hok : okExpr C e = true)
-    (hF : FInv C st.env) : Good C cfg Γ st (evalExpr cfg.dyn (f + 1) e st) := by
+    (hF : FInv C st.env) : Good A C cfg Γ st (evalExpr cfg.dyn (f + 1) e st) := by
   refine good_of ?_ (ag_expr_step (ag_all cfg f) Γ e st hm hws) hF
   have hp := H.panics
   have hst := H.str
   cases e with
   | num lex sp =>
     simp only [okExpr] at hok
-    have := H.num lex hok
     simp only [evalExpr]
     split
     · exact Safe.ok _ _
-    · next hn => rw [hn] at this; cases this
+    · next hn =>
+      rcases H.num with ha | hnum
+      · exact safe_trap_allowed ha _ _
+      · have := hnum lex hok; rw [hn] at this; cases this
   | bool b sp => simp only [evalExpr]; safe_close h hp hst
   | null sp => simp only [evalExpr]; safe_close h hp hst
   | str parts sp =>
@@ -979,14 +1031,17 @@ theorem safe_expr_step (H : Hyp N C cfg) (h : SafeAll (N := N) C cfg f) (Γ : Li
         exact safe_globalCall hp _ _ _ _
       | none =>
         have hfb : fnBoundIn Γ fn = true := by simpa [hg] using hfn
-        simp only [hg, Option.isSome_none, Bool.false_eq_true, if_false] at hcall
+        simp only [hg, Option.isSome_none, Bool.false_eq_true, if_false, Bool.and_eq_true,
+          Bool.not_eq_true'] at hcall
+        obtain ⟨hcall, hkeep⟩ := hcall
+        rw [H.plan] at hkeep
         cases fn with
         | none => simp [SCfg.fnOk] at hcall
         | some i =>
           have hdecl : fnDeclared Γ i = true := hfb
           simp only
           rw [lookupFn_agree hm hfb]
-          obtain ⟨fd, hfd⟩ := lookupFn_lex_some hm hdecl (H.keep i) name
+          obtain ⟨fd, hfd⟩ := lookupFn_lex_some hm hdecl hkeep name
           rw [hfd]
           simp only
           obtain ⟨⟨T, hT, hmem⟩, hid⟩ := lookupFn_found hfd
@@ -1024,13 +1079,13 @@ theorem safe_expr_step (H : Hyp N C cfg) (h : SafeAll (N := N) C cfg f) (Γ : Li
     | _ => simp only [evalExpr]; safe_close h hp hst
 
 /-- One more unit of fuel. -/
-theorem safe_step (H : Hyp N C cfg) (h : SafeAll (N := N) C cfg f) : SafeAll (N := N) C cfg (f + 1) :=
+theorem safe_step (H : Hyp N A C cfg) (h : SafeAll (N := N) A C cfg f) : SafeAll (N := N) A C cfg (f + 1) :=
   ⟨safe_expr_step H h, safe_sel_step H h, safe_idxs_step H h, safe_mutOp_step H h, safe_stmt_step H h,
    safe_stmts_step H h, safe_block_step H h, safe_loop_step H h⟩
 
 /-- **No evaluation panics**, for every fuel. -/
-theorem safe_all (H : Hyp N C cfg) : ∀ f, SafeAll (N := N) C cfg f
-  | 0 => safe_zero C cfg
+theorem safe_all (H : Hyp N A C cfg) : ∀ f, SafeAll (N := N) A C cfg f
+  | 0 => safe_zero A C cfg
   | f + 1 => safe_step H (safe_all H f)
 
 end
